@@ -356,6 +356,14 @@ def check(prop, tier, seed):
                         w["in"]["rescale"] = 60 if (k // plan["rescale_every"]) % 2 else -60
                         w["case"] = str(w.get("case", "")) + f"-rescale{w['in']['rescale']}"
                         extra_in.append(w)
+            # interval scaling  [lo, hi] * k : k / 2^60, finite ends x 2^60 (k = 0 is outside "scaling by a non-zero number")
+            if v.get("ev") == "bound_op" and i.get("op") == "scale" and "rescale" not in i and i.get("k") not in ([0, 1], None):
+                k += 1
+                if k % plan["rescale_every"] == 0:
+                    w = json.loads(json.dumps(v))
+                    w["in"]["rescale"] = 60
+                    w["case"] = str(w.get("case", "")) + "-rescale60"
+                    extra_in.append(w)
         inputs.extend(extra_in)
         gen_stats.append({"name": "rescaled_copies", "vectors": len(extra_in)})
     inp_path = os.path.join(wd, "inputs.ndjson")
